@@ -605,6 +605,7 @@ func VH19e_inherit() {
 		v, e = d.GetOption(mangos.OptionMaxReconnectTime)
 		verif.Assert(e == nil && v.(time.Duration) == m, lab+"/dialer/MAX-RECONNECT-TIME-not-inherited")
 		verif.Reach("dialer-inherits")
+		pushDown(lab+"/dialer", sock, d, tranList[ti].name != "inproc", true)
 	} else {
 		l, err := sock.NewListener(addr, nil)
 		verif.Assert(err == nil, lab+"/new-listener")
@@ -616,8 +617,75 @@ func VH19e_inherit() {
 			verif.Assert(e == nil && v.(int) == maxrx, lab+"/listener/MAX-RCV-SIZE-not-inherited")
 		}
 		verif.Reach("listener-inherits")
+		pushDown(lab+"/listener", sock, l, tranList[ti].name != "inproc", false)
 	}
 	sock.Close()
+}
+
+type optObject interface {
+	GetOption(string) (interface{}, error)
+	SetOption(string, interface{}) error
+}
+
+// pushDown: a socket-level SetOption reaches the endpoints that already exist - or it does not; either way it does
+// so consistently. The endpoint is given a value of its own, the socket is set to a NEW value: if the endpoint now
+// shows the socket's value, the library pushes the option down. Then the endpoint is given its own value again and
+// the socket is set to the value it ALREADY has: the outcome must be the same as before (no table of which options
+// travel; the first observation is the reference for the second).
+func pushDown(lab string, sock mangos.Socket, ep optObject, hasMaxRx, isDialer bool) {
+	type ov struct {
+		name     string
+		own, new interface{}
+	}
+	ownRx, newRx := verif.Int("own-maxrx"), verif.Int("new-maxrx")
+	verif.Assume(verif.And(verif.And(ownRx >= 0, ownRx <= 1<<30), verif.And(newRx >= 0, newRx <= 1<<30)))
+	verif.Assume(ownRx != newRx)
+	ownD, newD := verif.Duration("own-reconn"), verif.Duration("new-reconn")
+	verif.Assume(verif.And(verif.And(ownD >= 1, ownD <= time.Minute), verif.And(newD >= 1, newD <= time.Minute)))
+	verif.Assume(ownD != newD)
+	var opts []ov
+	if hasMaxRx {
+		opts = append(opts, ov{mangos.OptionMaxRecvSize, ownRx, newRx})
+	}
+	if isDialer {
+		opts = append(opts, ov{mangos.OptionReconnectTime, ownD, newD})
+	}
+	same := func(a, b interface{}) bool {
+		switch x := a.(type) {
+		case int:
+			y, ok := b.(int)
+			return ok && x == y
+		case time.Duration:
+			y, ok := b.(time.Duration)
+			return ok && x == y
+		}
+		return false
+	}
+	for _, o := range opts {
+		if ep.SetOption(o.name, o.own) != nil {
+			continue
+		}
+		verif.Assert(sock.SetOption(o.name, o.new) == nil, lab+"/"+o.name+"/socket-set-new-value")
+		g1, e1 := ep.GetOption(o.name)
+		if e1 != nil {
+			continue
+		}
+		pushed := same(g1, o.new)
+		verif.Assert(pushed || same(g1, o.own), lab+"/"+o.name+"/endpoint-shows-neither-its-own-nor-the-sockets-value")
+		// again, the socket being set to the value it already has
+		verif.Assert(ep.SetOption(o.name, o.own) == nil, lab+"/"+o.name+"/endpoint-set-own-value-again")
+		verif.Assert(sock.SetOption(o.name, o.new) == nil, lab+"/"+o.name+"/socket-set-same-value")
+		g2, e2 := ep.GetOption(o.name)
+		verif.Assert(e2 == nil, lab+"/"+o.name+"/get")
+		if e2 == nil {
+			if pushed {
+				verif.Assert(same(g2, o.new), lab+"/"+o.name+"/socket-option-set-to-its-current-value-does-not-reach-the-endpoint")
+			} else {
+				verif.Assert(same(g2, o.own), lab+"/"+o.name+"/socket-option-reaches-the-endpoint-only-when-unchanged")
+			}
+		}
+		verif.Reach("push-down-checked")
+	}
 }
 
 var tranList = []struct{ name, addr string }{{"tcp", "tcp://127.0.0.1:5555"}, {"tlstcp", "tls+tcp://127.0.0.1:5556"}, {"ws", "ws://127.0.0.1:5557/x"},
